@@ -282,6 +282,17 @@ func (c *Ctx) ruleLifecycle(rule string, want map[string]bool) {
 			putOK = false
 		}
 		chk("puts-own-wrapper", putOK && nPut == 1, p.deferI.Pos(), "the wrapper this request acquired must be handed back to this pool exactly once, by the deferred function only")
+		// the deferred code reaches the hand-back on every way to its end: a way out of it (a return
+		// or a panic raised again) before the hand-back loses the instance for exactly the requests
+		// that fault
+		if put != nil && put.lit != nil {
+			at, early := pathExists(put.lit, nil, isExit, func(in ssa.Instruction) bool { return in == put.in })
+			pos := p.deferI.Pos()
+			if early && at.Pos().IsValid() {
+				pos = at.Pos()
+			}
+			chk("put-on-every-way-out", !early, pos, "the deferred function can end (return, or panic again) before it hands the wrapper back: the instance is lost to the pool on that way")
+		}
 		order := clr != nil && put != nil && nPut == 1
 		if order {
 			if clr.lit != nil && clr.lit == put.lit {
